@@ -175,6 +175,7 @@ def run_srv(eng, case):
             out.append(f'part {a.size} {a.pos - a.addr_offset} {a.addr_offset}')
         out.append(f'node {s._node_allocator.user} {s._node_allocator._init_temp}')
         objs = [[], [], []]          # control, audio, buffer: owners of live blocks, allocation order
+        dead = [[], [], []]          # objects already freed once (double free must change nothing)
         for line in case['ops']:
             w = line.split()
             _STATE['k'] = int(w[2]) if len(w) > 2 else 0
@@ -200,7 +201,15 @@ def run_srv(eng, case):
                         kind = type(b).__name__
                         idx = b.bufnum if kind == 'Buffer' else b.index
                         b.free()
+                        dead[int(w[1])].append(b)
                         out.append(f'free {kind} {idx}')
+                    else:
+                        out.append('skip')
+                elif w[0] == 'refree':
+                    lst = dead[int(w[1])]
+                    if lst:
+                        lst[int(w[2]) % len(lst)].free()      # second free() of the same object
+                        out.append('refree ok')
                     else:
                         out.append('skip')
                 else:
